@@ -106,6 +106,10 @@ def generate(ck):
         descs.append({"kind": "records", "params": [float(v) for v in p], "sats": pure})
         for ph in range(3):
             descs.append({"kind": "ladder", "params": [float(v) for v in p], "phase": ph, "m": 41, "split": 0.5})
+    # batches in which several records miss the simplex in OPPOSITE directions (1.3 and 0.7; 1.5, 0.75, 0.75),
+    # alone or between good records: every record is judged on its own
+    for bad in ([[0.5, 0.5, 0.3], [0.3, 0.2, 0.2]], [[0.6, 0.5, 0.4], [0.25, 0.25, 0.25], [0.4, 0.2, 0.15]], [[0.4, 0.3, 0.3], [0.7, 0.4, 0.2], [0.2, 0.2, 0.6], [0.2, 0.3, 0.2]], [[0.34, 0.33, 0.34], [0.33, 0.33, 0.33]]):
+        descs.append({"kind": "reject-sum", "params": [2.0, 2.0, 2.0, 0.1, 0.1, 0.05, 1.0, 1.0, 1.0], "sats": bad, "which": "cancelling deviations"})
     # residual saturations whose SUM comes within 1e-5 .. 1e-12 of one (a narrow mobile range): still
     # "summing to less than one", still admissible
     for gap in (1e-5, 5e-6, 2.0**-20, 1e-9, 1e-12):
